@@ -75,6 +75,11 @@ CHECKS["C06"] = dict(cat=MC, engine="E1 xsched (HTTP CONNECT side in memory) + E
    text="In memory: request ok x upstream {direct,http,socks5,socks4} x {accept, connect error, proxy says no, closes mid-handshake} plus denied, no rule, unsupported feature, bad method, bad protocol, bad target: exactly one reply, 200 iff the upstream leg is established, failure replies complete (body = Content-Length) and followed by close, no upstream contact for refused requests. Real sockets: {http, socks5, socks4/4a} x 19 routes through the real connectors against fake upstreams that accept / refuse / say no / close / send garbage, plus BIND, unknown command, UDP not allowed and authentication failures.",
    note="Kernel scheduling uncontrolled in the E4 part. Fake upstreams are Python servers.",
    ref="DESIGN.md §3 C06")
+CHECKS["C04"] = dict(cat=MC, engine="E1 xsched (buffered relay, in memory) + E4 real binary in both I/O modes",
+   technique="stateless exhaustive exploration (deviation bound 2, thorough 3) of end-of-stream / abort event placements over the real relay; real-socket enumeration of all half-close/close/abort operation sequences up to length 3 (thorough 4) in splice and buffered mode with a mode differential",
+   text="In memory: 10 close patterns x 2 upstream codecs x back-pressure; the explorer places EOF and abort at every position: EOF reaches the peer only after all earlier bytes, the opposite direction keeps flowing (late messages after the peer's EOF), both sockets closed and Terminated / ErrorOccured recorded, no lingering relay after an abort. Real sockets: every valid sequence over {client write, origin write, client half-close, origin half-close} with terminal {none, client RST, origin RST, client close, origin close}, lock-step, useSplice true and false; observations must match the TCP reference and be identical in both modes; every connection must end up in /api/history with a terminal state.",
+   note="Kernel scheduling uncontrolled in the E4 part (4 s one-sided deadlines). TLS variants are not covered.",
+   ref="DESIGN.md §3 C04")
 NOT_YET = "check not built yet in this revision (see DESIGN.md §3 for the planned model-checking design)"
 def main():
     checks = []
@@ -108,9 +113,9 @@ def main():
             "add_only": True,
         },
         "engines": [
-            {"name": "E1 xsched", "path": "harness/src/verif/xsched.rs", "serves_properties": ["C01", "C06", "C14", "C15", "C16"], "kind_free_text": "stateless deviation-bounded DFS over task schedules and scripted environment answers of real async code"},
+            {"name": "E1 xsched", "path": "harness/src/verif/xsched.rs", "serves_properties": ["C01", "C04", "C06", "C14", "C15", "C16"], "kind_free_text": "stateless deviation-bounded DFS over task schedules and scripted environment answers of real async code"},
             {"name": "E3 loom", "path": "harness/src/verif/c17.rs", "serves_properties": ["C17"], "kind_free_text": "loom exhaustive interleavings of the real load balancer (feature loomlb => cfg(redproxy_verif_loom))"},
-            {"name": "E4 xnet", "path": "e4/", "serves_properties": ["C06", "C15", "C18"], "kind_free_text": "real-socket script/fault enumeration against the real binary (Python drivers, kernel scheduling uncontrolled)"},
+            {"name": "E4 xnet", "path": "e4/", "serves_properties": ["C04", "C06", "C15", "C18"], "kind_free_text": "real-socket script/fault enumeration against the real binary (Python drivers, kernel scheduling uncontrolled)"},
             {"name": "E2 xseq", "path": "harness/src/verif/", "serves_properties": [p for p in CHECKS], "kind_free_text": "bounded-exhaustive operation-sequence / input-shape enumeration on the real code vs reference model"},
         ],
         "checks": checks,
